@@ -33,6 +33,7 @@ func rulesC09(c *Ctx) {
 	ruleSessionFootprint(c)
 	ruleFatalEndsSession(c)
 	ruleNewSessionDefaults(c)
+	ruleStateWriters(c, append(append([]writerRow{}, writersServerSession...), writersServerElection...))
 	ruleElectionWriters(c) // a session leaving (or any handler but runElection) never alters the election state
 }
 
@@ -278,10 +279,65 @@ func ruleCheckParamsTable(c *Ctx) {
 	e := func(code, reason string) string {
 		return "ret(nil, err(" + code + "/ModifyRPCErrorDetails_" + reason + "))"
 	}
+	// the store of the accepted parameters: through setClientParams, or — when that helper has been folded into
+	// checkParams — in place (`s.cs[id].params = cp`, after the test that the session is known)
+	cpInfo := fi.Pkg.TypesInfo
+	recvN, idN := recvName(fi), paramName(fi, 0)
+	aKnown := eqAtom("nil", recvN+".cs["+idN+"]")
+	baseEv := ribCallEvents(fi)
+	evs := func(n ast.Node) []Event {
+		out := baseEv(n)
+		inspectNoFuncLit(n, func(m ast.Node) bool {
+			as, ok := m.(*ast.AssignStmt)
+			if !ok || len(as.Lhs) != 1 || len(as.Rhs) != 1 {
+				return true
+			}
+			se, ok := ast.Unparen(as.Lhs[0]).(*ast.SelectorExpr)
+			if !ok || se.Sel.Name != "params" {
+				return true
+			}
+			ie, ok := ast.Unparen(se.X).(*ast.IndexExpr)
+			if !ok || !strings.HasSuffix(types.ExprString(ie.X), ".cs") {
+				return true
+			}
+			role := func(e ast.Expr) string {
+				if o := objOfIdent(cpInfo, e); o != nil {
+					return paramRole(cpInfo, fi.Decl, o)
+				}
+				return "?"
+			}
+			out = append(out, Event{Kind: "setClientParams(" + role(ie.Index) + "," + role(as.Rhs[0]) + ")", Node: as})
+			return true
+		})
+		return out
+	}
+	var cpe *pathEnum
+	helperExists := c.P.Func("server", "Server", "setClientParams") != nil
+	cpAtoms := map[string]int{aNil: 2, aGot: 2, aAll: 2, aSingle: 2, aPres: 2, aDel: 2, aRibAck: 2, aFibAck: 2, aConsErr: 2, aCons: 2}
+	if helperExists {
+		cpAtoms[aSet] = 2
+	} else {
+		cpAtoms[aKnown] = 2
+	}
+	storeFails := func(v *Valuation) bool {
+		if helperExists {
+			return !v.B(aSet)
+		}
+		return v.B(aKnown)
+	}
 	runTable(c, tableSpec{
 		Rule: "TABLE-CHECK-PARAMS", Fn: fi, Construct: "checkParams decision table",
-		Events: ribCallEvents(fi),
-		Atoms:  map[string]int{aNil: 2, aGot: 2, aAll: 2, aSingle: 2, aPres: 2, aDel: 2, aRibAck: 2, aFibAck: 2, aConsErr: 2, aCons: 2, aSet: 2},
+		Events: evs, PE: &cpe,
+		// an INTERNAL failure is judged by its status alone (whether the failed store was attempted through a
+		// helper is immaterial)
+		Outcome: func(p Path) string {
+			o := defaultOutcome(cpInfo, fi.Decl, p)
+			if strings.HasPrefix(o, "ret(nil, err(Internal))") {
+				return "ret(nil, err(Internal))"
+			}
+			return o
+		},
+		Atoms: cpAtoms,
 		Expected: func(v *Valuation) (string, bool) {
 			switch {
 			case v.B(aNil):
@@ -302,8 +358,8 @@ func ruleCheckParamsTable(c *Ctx) {
 				return "ret(nil, err(Internal))", true
 			case !v.B(aCons):
 				return e("FailedPrecondition", "PARAMS_DIFFER_FROM_OTHER_CLIENTS"), true
-			case !v.B(aSet):
-				return "ret(nil, err(Internal)) effects[setClientParams(p0,cp)]", true
+			case storeFails(v):
+				return "ret(nil, err(Internal))", true
 			}
 			return "ret(resp(params:SessionParametersResult_OK), nil) effects[setClientParams(p0,cp)]", true
 		},
